@@ -227,6 +227,8 @@ func (C10) Generate(rng *rand.Rand, tier string) []core.Case {
 	if len(ops) > 0 {
 		cases = append(cases, core.Case{Name: "codec-last", Ops: ops})
 	}
+	// the file of the current segment is shorter than the segment
+	cases = append(cases, core.Case{Name: "wal-short-file", Ops: []string{"cw.shortfile len=0 seg=128 recs=0", "cw.shortfile len=57 seg=8192 recs=3 app=320", "cw.shortfile len=128 seg=128 recs=3", "cw.shortfile len=40 seg=128 recs=3 app=2"}})
 	// index files of read-only segments
 	nro := 400
 	if tier == "thorough" {
@@ -304,6 +306,8 @@ func c10op(op string) string {
 		return fmt.Sprintf("ok idx=%s crc=%d off=%d n=%d", strings.Join(offs, ","), lastCrc, newOff, lastEntry+1)
 	case "cx.openro":
 		return openROExec(f)
+	case "cw.shortfile":
+		return shortFileExec(op, f)
 	case "cx.read":
 		c := codecFor(f[1])
 		buf := core.UnHex(f[2])
@@ -570,6 +574,12 @@ func (C10) Oracle(ops, impl, model []string) string {
 			return fmt.Sprintf("op %d hangs", i)
 		}
 		f := strings.Fields(o)
+		if f[0] == "cw.shortfile" {
+			if strings.HasPrefix(out, "fatal error") || strings.HasPrefix(out, "panic") {
+				return fmt.Sprintf("op %d: a WAL whose current segment file holds %s of its %s bytes (a crash before the file got its size) brings the process down when it is opened or appended to: %s", i, metaTok(f, "len="), metaTok(f, "seg="), out)
+			}
+			continue
+		}
 		if f[0] == "cx.openro" {
 			if m := openROOracle(o, out); m != "" {
 				return fmt.Sprintf("op %d: %s", i, m)
